@@ -605,3 +605,63 @@ pub mod tree {
         }
     }
 }
+
+/// Pager entry points: page cache, eviction with write-back, checkpoint (io::pager, io::cache).
+pub mod pager {
+    use crate::DBConfig;
+    use crate::io::pager::Pager;
+    use crate::multithreading::frames::MemFrame;
+    use crate::storage::core::traits::Buffer;
+    use crate::storage::page::OverflowPage;
+    use std::io::Write;
+    use std::path::Path;
+
+    pub struct P {
+        pager: Pager,
+        pins: Vec<(u64, MemFrame)>,
+    }
+
+    impl P {
+        pub fn create(path: &Path, page_size: usize, cache_size: usize) -> Result<Self, String> {
+            let config = DBConfig {
+                page_size,
+                min_keys_per_page: 3,
+                num_siblings_per_side: 1,
+                cache_size,
+                pool_size: 1,
+            };
+            Ok(P { pager: Pager::from_config(config, path).map_err(|e| e.to_string())?, pins: Vec::new() })
+        }
+        pub fn alloc(&mut self) -> Result<u64, String> {
+            self.pager.allocate_page::<OverflowPage>().map_err(|e| e.to_string())
+        }
+        /// Stores `value` in the first eight data bytes of the page.
+        pub fn write(&mut self, id: u64, value: u64) -> Result<(), String> {
+            self.pager
+                .with_page_mut::<OverflowPage, _, _>(id, |p| p.data_mut()[..8].copy_from_slice(&value.to_le_bytes()))
+                .map_err(|e| e.to_string())
+        }
+        pub fn read(&mut self, id: u64) -> Result<u64, String> {
+            self.pager
+                .with_page::<OverflowPage, _, _>(id, |p| u64::from_le_bytes(p.data()[..8].try_into().unwrap()))
+                .map_err(|e| e.to_string())
+        }
+        /// Keeps a reference to the frame of the page, as a latch holder does: the frame cannot be evicted.
+        pub fn pin(&mut self, id: u64) -> Result<(), String> {
+            let f = self.pager.read_page::<OverflowPage>(id).map_err(|e| e.to_string())?;
+            self.pins.push((id, f));
+            Ok(())
+        }
+        pub fn unpin(&mut self, id: u64) {
+            if let Some(i) = self.pins.iter().position(|(p, _)| *p == id) {
+                self.pins.remove(i);
+            }
+        }
+        pub fn flush(&mut self) -> Result<(), String> {
+            self.pager.flush().map_err(|e| e.to_string())
+        }
+        pub fn total_pages(&self) -> u64 {
+            self.pager.total_allocated_pages()
+        }
+    }
+}
